@@ -76,10 +76,23 @@ def run(ctx):
         "fix_stress": (("str", "fix_stress"), f"{FM}.fix_one_stress"),
     }
     AUGMENTERS = {f"{FM}.add_mean_one", f"{FM}.add_mean_one_before"}
-    for bk, (mval, augname) in BACKENDS.items():
+    for bk, (mval, augname_expected) in BACKENDS.items():
         cfg = {"method": mval, "allow_negatives": T.FALSE}
         s = sym.summarize(repo, sv.qualname, config=cfg)
         where = ctx.where(sv)
+        # which system builder is live under this configuration (read from the code, not from a table)
+        live = [e.target for e in s.calls() if e.target in (f"{FM}.add_mean_one", f"{FM}.add_mean_one_before", f"{FM}.fix_one_stress")]
+        if not live:
+            raise AnalysisError(f"{where}: method {bk}: no system builder is called")
+        augname = live[0]
+        if len(set(live)) > 1:
+            # mixed builders: take the one whose matrix reaches the back-ends; the rhs obligation below then reports the mismatch
+            for e in s.calls():
+                if e.fname in ("scipy.optimize.nnls", "scipy.optimize.lsq_linear", "numpy.linalg.inv") and e.args:
+                    src = [x[1] for x in T.subterms(e.args[0]) if x[0] == "call" and x[1] in set(live)]
+                    if src:
+                        augname = src[0]
+                        break
         AUG = T.call(augname, (SELF, B0))
         MP = T.call("astype", (T.idx(AUG, T.num(0)), ("mod", "numpy.float64")))
         Bv = T.call("round", (T.call(("m", "flatten"), (T.call("astype", (T.call("astype", (T.idx(AUG, T.num(1)), ("mod", "numpy.float64"))), ("mod", "numpy.float64"))),)), T.num(3)))
@@ -215,6 +228,9 @@ PINNED = [
     ("lsq_linear: constraint row without the trailing zero", _P, "        # Now insert the two corresponding cols for the lagrange multpliers\n        cMatrix = np.concatenate((cMatrix, np.zeros(1)))", "        # Now insert the two corresponding cols for the lagrange multpliers\n        cMatrix = np.concatenate((cMatrix, np.ones(1)))"),
 ]
 PRESERVING = [
+    ("repair of F8b: the fix_stress branch removed (method falls through to the default system)", _P, """        if solver_method == "fix_stress":
+            mprime, b, removed_index = self.fix_one_stress(b)
+        elif solver_method == "lsq_linear":""", """        if solver_method == "lsq_linear":"""),
     ("ones row through np.ones", _P, "        cMatrix = np.array([1.] * total_edges + [0.] * (total_borders * 2))\n        mprime = np.vstack((mprime, cMatrix))", "        cMatrix = np.ones(total_edges)\n        mprime = np.vstack((mprime, cMatrix))"),
     ("handler tuple reordered", _P, "        except (ValueError, np.linalg.LinAlgError, TypeError) as e:", "        except (TypeError, ValueError, np.linalg.LinAlgError) as e:"),
 ]
